@@ -115,6 +115,122 @@ theorem C15_stopped_run_labels (upd : S → ℕ → K → K × S × R) (flt : Fa
   have := stage_labels upd flt hsave stage k T fuel 0 0 s0 [] [] 0 (by simp)
   rcases h with h | h <;> rw [h] at this <;> exact this
 
+/-! ### under ARBITRARY faults (frame writer included): every frame sits on the save grid, except possibly the last one -/
+
+private def GridOK (k : ℕ) : StageOutcome K S R → Prop
+  | .finished e _ => ∀ f ∈ e.frames, f.step % k = 0 ∨ f.step = e.steps
+  | .cancelled e _ => ∀ f ∈ e.frames, f.step % k = 0 ∨ f.step = e.steps
+  | .raised fr _ => ∀ f ∈ fr, f.step % k = 0
+  | .outOfFuel => True
+
+omit [Add K] [LE K] [DecidableLE K] [OfNat K 0] in
+private theorem finalSave_grid (flt : Faults) (save : Bool) (k i : ℕ) (t : K) (s : S)
+    (buf : List R) (fr : List (Frame K S R)) (saves : ℕ) (c : Bool)
+    (hfr : ∀ f ∈ fr, f.step % k = 0) :
+    GridOK k (finalSave flt save k i t s buf fr saves c) := by
+  unfold finalSave trySave
+  split
+  · cases hflt : flt.save saves with
+    | none =>
+      have hall : ∀ f ∈ fr ++ [mkFrame i t s buf], f.step % k = 0 ∨ f.step = i := by
+        intro f hf
+        rcases List.mem_append.1 hf with h | h
+        · exact Or.inl (hfr f h)
+        · simp only [List.mem_singleton] at h
+          subst h
+          exact Or.inr rfl
+      cases c <;> simpa [GridOK] using hall
+    | some flt' => simpa [GridOK] using hfr
+  · cases c <;> simp only [GridOK] <;> intro f hf <;> exact Or.inl (hfr f hf)
+
+private theorem stage_grid (upd : S → ℕ → K → K × S × R) (flt : Faults) (stage : ℕ) (save : Bool) (k : ℕ) (T : K) :
+    ∀ (fuel i : ℕ) (t : K) (s : S) (buf : List R) (fr : List (Frame K S R)) (saves : ℕ),
+      (∀ f ∈ fr, f.step % k = 0) →
+      GridOK k (runStageF upd flt stage save k T fuel i t s buf fr saves) := by
+  intro fuel
+  induction fuel with
+  | zero => intro i t s buf fr saves _; simp [runStageF, GridOK]
+  | succ fuel ih =>
+    intro i t s buf fr saves hfr
+    unfold runStageF
+    simp only
+    -- the (possibly faulting) save at a grid step
+    have key : ∀ (r : Option Fault × List (Frame K S R) × ℕ), (∀ f ∈ r.2.1, f.step % k = 0) →
+        GridOK k (match r with
+          | (some .error, fr', _) => StageOutcome.raised fr' .error
+          | (some .interrupt, fr', saves') => finalSave flt save k i t s (if i % k = 0 then [] else buf) fr' saves' true
+          | (none, fr', saves') =>
+            if T ≤ t then finalSave flt save k i t s (if i % k = 0 then [] else buf) fr' saves' false
+            else
+              match flt.upd stage i with
+              | some .error => StageOutcome.raised fr' .error
+              | some .interrupt => finalSave flt save k i t s (if i % k = 0 then [] else buf) fr' saves' true
+              | none =>
+                runStageF upd flt stage save k T fuel (i+1) (t + (upd s i t).1) (upd s i t).2.1
+                  ((if i % k = 0 then [] else buf) ++ [(upd s i t).2.2]) fr' saves') := by
+      rintro ⟨o, fr', saves'⟩ hfr'
+      simp only at hfr'
+      cases o with
+      | some f =>
+        cases f with
+        | error => simpa [GridOK] using hfr'
+        | interrupt => exact finalSave_grid flt save k i t s _ fr' saves' true hfr'
+      | none =>
+        simp only
+        by_cases hT : T ≤ t
+        · rw [if_pos hT]
+          exact finalSave_grid flt save k i t s _ fr' saves' false hfr'
+        · rw [if_neg hT]
+          cases hu : flt.upd stage i with
+          | none => exact ih (i+1) _ _ _ fr' saves' hfr'
+          | some f =>
+            cases f with
+            | error => simpa [GridOK] using hfr'
+            | interrupt => exact finalSave_grid flt save k i t s _ fr' saves' true hfr'
+    apply key
+    split
+    · rename_i hc
+      unfold trySave
+      cases hflt : flt.save saves with
+      | none =>
+        simp only
+        intro f hf
+        rcases List.mem_append.1 hf with h | h
+        · exact hfr f h
+        · simp only [List.mem_singleton] at h
+          subst h
+          exact hc.1
+      | some flt' => simpa using hfr
+    · simpa using hfr
+
+/-- **Whatever faults occur — in the updates and in the frame writer — every frame of the output sits on the save grid, except
+    possibly the last one of a run that finished or was cancelled off the grid** (its label is then the step the run stopped
+    at).  With `C15_frames_truthful` and `C15_frames_increasing`: the output of any stopped run is a strictly increasing
+    selection of grid points of the trajectory, plus at most the stopping point. -/
+theorem C15_frames_on_grid (upd : S → ℕ → K → K × S × R) (flt : Faults) (stage : ℕ) (save : Bool) (k : ℕ) (T : K)
+    (fuel : ℕ) (s0 : S) (f : Frame K S R)
+    (hf : f ∈ outcomeFrames (runStageF upd flt stage save k T fuel 0 0 s0 [] [] 0)) :
+    f.step % k = 0 ∨ ∃ e saves, (runStageF upd flt stage save k T fuel 0 0 s0 [] [] 0 = .finished e saves ∨
+      runStageF upd flt stage save k T fuel 0 0 s0 [] [] 0 = .cancelled e saves) ∧ f.step = e.steps := by
+  have h := stage_grid upd flt stage save k T fuel 0 0 s0 [] [] 0 (by simp)
+  cases hr : runStageF upd flt stage save k T fuel 0 0 s0 [] [] 0 with
+  | finished e saves =>
+    rw [hr] at h hf
+    rcases h f hf with h1 | h1
+    · exact Or.inl h1
+    · exact Or.inr ⟨e, saves, Or.inl rfl, h1⟩
+  | cancelled e saves =>
+    rw [hr] at h hf
+    rcases h f hf with h1 | h1
+    · exact Or.inl h1
+    · exact Or.inr ⟨e, saves, Or.inr rfl, h1⟩
+  | raised fr flt' =>
+    rw [hr] at h hf
+    exact Or.inl (h f hf)
+  | outOfFuel =>
+    rw [hr] at hf
+    simp [outcomeFrames] at hf
+
 /-! ### the per-step records of a stopped run ("with their bookkeeping intact") -/
 
 omit [Add K] [LE K] [DecidableLE K] [OfNat K 0] in
